@@ -1,3 +1,4 @@
+@property
 def spec(self):
     if self.delayedby:
         return self.synapse.spike_at(self.selector)
